@@ -43,14 +43,23 @@ func sig(pub, topic string, ms []*message.Message) string {
 }
 
 func scenario(H int, withNoPub bool, shapes []int, msgsPerTopic, c int) *explore.Scenario {
+	return scenarioX(H, withNoPub, shapes, msgsPerTopic, c, false)
+}
+
+// inFlight: the subscribers hand out the next message without waiting for the previous settlement, and
+// goroutine starts are scheduling points (a dispatch goroutine may start late).
+func scenarioX(H int, withNoPub bool, shapes []int, msgsPerTopic, c int, inFlight bool) *explore.Scenario {
 	name := fmt.Sprintf("H%d/c%d/n%d/shapes", H, c, msgsPerTopic)
+	if inFlight {
+		name = fmt.Sprintf("inflight/H%d/c%d/n%d/shapes", H, c, msgsPerTopic)
+	}
 	for _, s := range shapes {
 		name += "-" + shapeNames[s]
 	}
 	if withNoPub {
 		name += "/+nopub"
 	}
-	return &explore.Scenario{Name: name, C: c, DataOnly: c < 0, Body: func() {
+	return &explore.Scenario{Name: name, C: c, DataOnly: c < 0, Opts: vs.Options{LazyStart: inFlight}, Body: func() {
 		topics := []string{"t1", "t2"}
 		ptopics := []string{"o1", "o2"}
 		// pools
@@ -62,7 +71,9 @@ func scenario(H int, withNoPub bool, shapes []int, msgsPerTopic, c int) *explore
 					script[t] = append(script[t], hx.Msg(fmt.Sprintf("s%d.%s.m%d", si, t, i)))
 				}
 			}
-			subs = append(subs, hx.NewScriptSub(fmt.Sprintf("s%d", si), script))
+			ss := hx.NewScriptSub(fmt.Sprintf("s%d", si), script)
+			ss.InFlight = inFlight
+			subs = append(subs, ss)
 		}
 		pubs := []*hx.ScriptPub{hx.NewScriptPub("p0"), hx.NewScriptPub("p1")}
 		shared := hx.Msg("shared-object")
@@ -220,7 +231,7 @@ func scenario(H int, withNoPub bool, shapes []int, msgsPerTopic, c int) *explore
 				vs.Fail("nopub-outputs-nack", "no-publisher handler whose chain returns messages: %d of %d deliveries nacked", npNacked, msgsPerTopic)
 			}
 		}
-		vs.Note("%s", describe(ws))
+		vs.Note("%s invocations=%v", describe(ws), got)
 	}}
 }
 
@@ -280,4 +291,15 @@ func init() {
 	// schedules: a few fixed shapes with preemptions
 	add(reg.Quick, 20, 2, false, []int{1, 3}, 1, 0, 1)
 	add(reg.Quick, 20, 2, false, []int{4, 4}, 1, 0, 1)
+	// several messages in flight on one handler, dispatch goroutines may start late
+	for _, sh := range []int{0, 1, 3} {
+		sh := sh
+		sc := scenarioX(1, false, []int{sh}, 2, 1, true)
+		reg.AddW("C08", sc.Name, reg.Quick, 20, func(t reg.Tier) *explore.Scenario {
+			if t == reg.Thorough {
+				return scenarioX(1, false, []int{sh}, 3, 1, true)
+			}
+			return scenarioX(1, false, []int{sh}, 2, 1, true)
+		})
+	}
 }
